@@ -499,6 +499,75 @@ def known_stream():
     ]
 
 
+# wide axes: more than 8 vectors on the sliced axis, kept positions spread over the range — the
+# slicer's old-index -> new-index lookup must follow the SORTED kept positions, and small-int
+# sets only stop iterating in ascending order once a position >= 8 is involved ({1, 8} -> 8, 1)
+WIDE_PICKS = [(1, 8), (8, 9), (0, 15), (3, 11, 12), (1, 8, 9), (7, 8), (0, 8), (8,), (2, 9, 10, 15), (8, 1),
+              (15, 0, 7), (9, 2), (5, 13, 6), (0, 1, 2, 3, 4, 5, 6, 7, 8), (10, 3, 12, 1)]
+WIDE_SERS = ["compact", "default", "indent2"]
+
+
+def wide_spec(n_obs, n_samp, zeros=False):
+    obs = ["o%02d" % i for i in range(n_obs)]
+    samp = ["s%02d" % j for j in range(n_samp)]
+    rows = [[0.0 if zeros and (i + 2 * j) % 5 == 0 else float(1 + i * n_samp + j) for j in range(n_samp)]
+            for i in range(n_obs)]
+    return {"obs": obs, "samp": samp, "rows": rows, "omd": [{"k": "vo%d" % i} for i in range(n_obs)],
+            "smd": [{"k": "vs%d" % j} for j in range(n_samp)], "type": "OTU table"}
+
+
+def wide_stream(ctx, rng, n0, quick):
+    n = n0
+    tags = ["wide-axis"]
+
+    def sweep(fx, axis, picks, sers, symmetric=True):
+        axis_ids = fx.spec["samp"] if axis == "sample" else fx.spec["obs"]
+        for k, pos in enumerate(picks):
+            if max(pos) >= len(axis_ids):
+                continue
+            ids = [axis_ids[p] for p in pos]
+            for ser in sers:
+                check_case(ctx, fx, "cmdjson", ids, axis, ser=ser, tags=tags)
+            if symmetric:
+                check_case(ctx, fx, "jsonparse", ids, axis, ser=WIDE_SERS[k % 3], tags=tags)
+                check_case(ctx, fx, "h5", ids, axis, tags=tags)
+                check_case(ctx, fx, "h5nomd", ids, axis, tags=tags)
+                if k % 4 == 0:
+                    check_case(ctx, fx, "cmdh5", ids, axis, tags=tags)
+            ctx.count("wide-axis:pick")
+    # every ordered pair of positions on an 11-wide axis, both orientations
+    for n_obs, n_samp, axis in ((3, 11, "sample"), (11, 3, "observation")):
+        n += 1
+        fx = Fixture(wide_spec(n_obs, n_samp), "dense", "x", n)
+        try:
+            pairs = [(a, b) for a in range(11) for b in range(11) if a != b]
+            if not quick:
+                rng.shuffle(pairs)
+            # the three serialisations on every pair; the other readers on the pairs given ascending
+            sweep(fx, axis, [p for p in pairs if p[0] > p[1]], WIDE_SERS, symmetric=False)
+            sweep(fx, axis, [p for p in pairs if p[0] < p[1]], WIDE_SERS, symmetric=True)
+            for ser in WIDE_SERS:
+                check_text(ctx, fx, [fx.spec["samp" if axis == "sample" else "obs"][p] for p in (1, 8)], axis, ser)
+        finally:
+            fx.close()
+    # 16 x 16 with zero cells, 9 x 12: spread picks on both axes
+    for n_obs, n_samp, zeros in ((16, 16, True), (9, 12, False), (12, 9, True)):
+        n += 1
+        fx = Fixture(wide_spec(n_obs, n_samp, zeros), ["csr", "csc", "coo"][n % 3], "x", n)
+        try:
+            for axis in ("sample", "observation"):
+                width = n_samp if axis == "sample" else n_obs
+                extra = [tuple(rng.sample(range(width), rng.choice([2, 2, 3, 4]))) for _ in range(4 if quick else 30)]
+                extra = [e for e in extra if max(e) >= 8]
+                sweep(fx, axis, WIDE_PICKS + extra, WIDE_SERS)
+                check_text(ctx, fx, [(fx.spec["samp"] if axis == "sample" else fx.spec["obs"])[p] for p in (0, 8)],
+                           axis, "default")
+        finally:
+            fx.close()
+    ctx.count("stream=wide-axis")
+    return n
+
+
 def run(ctx):
     quick = ctx.quick()
     rng = ctx.rng
@@ -507,7 +576,9 @@ def run(ctx):
                 "small axis / random subsets of a larger one, IDs in random order, both axes, go through "
                 "from_hdf5(ids), from_hdf5(ids, subset_with_metadata=False), parse_table(ids) on HDF5 and JSON, "
                 "_subset_table on HDF5 and on JSON text re-serialised (writer, compact, default, indent=2, tab, indent=1); "
-                "plus unknown-ID and repeated-ID requests and the click sub-command. non-trivial = the subset axis has "
+                "plus unknown-ID and repeated-ID requests and the click sub-command; plus tables with 9-16 vectors on the sliced "
+                "axis: every ordered pair of positions of an 11-wide axis (both orientations) and spread pairs/triples "
+                "((1,8), (8,9), (0,15), (3,11,12), ...) on 16x16, 9x12, 12x9, three serialisations. non-trivial = the subset axis has "
                 ">= 2 IDs; distinct = distinct (table, variant, request, serialisation)")
     ctx.trusted = ["h5py / json are used to present the file to the model (raw datasets, parsed document)",
                    "metadata of the file view is taken from the real full load (axis_load's parsing is C01's subject)"]
@@ -543,6 +614,9 @@ def run(ctx):
                     check_case(ctx, fx, "cmdjson", ids, axis, ser=ser, tags=["special-strings"])
             ctx.count("stream=recorded-findings")
             fx.close()
+        # 2b. wide axes (9-16 vectors), kept positions spread over the range
+        if first or not quick:
+            n = wide_stream(ctx, rng, n, quick)
         # 3. main stream
         n_tables = 45 if quick else max(60, 1400 // getattr(ctx, "worker", (0, 1))[1])
         routes = ["dense", "csr", "csc", "coo", "csr_unsorted", "csr_zeros", "sort_roundtrip", "lil"]
